@@ -363,7 +363,7 @@ class AsmWriter:
                         indent = ' ' * len(prefix)
                     else:
                         prefix = indent = ''
-                    for line in wrap(item, width - len(prefix)):
+                    for line in wrap(item, max(width - len(prefix), 1)):
                         item_lines.append(prefix + line)
                         prefix = indent
                     lines.extend(item_lines)
